@@ -6,7 +6,7 @@
 From Coq Require Import NArith ZArith Arith List Bool Lia ZifyBool ZifyN.
 Import ListNotations.
 From LunaLib Require Import Netlist Bits Machine.
-From LunaModel Require Import DescSpec DescSpec_proofs DescRom DescRom_proofs DescBlock.
+From LunaModel Require Import DescSpec DescSpec_proofs DescRom DescRom_proofs DescCommon DescBlock.
 Open Scope N_scope.
 Ltac Zify.zify_post_hook ::= Z.div_mod_to_equations.
 
@@ -39,13 +39,6 @@ Proof.
   destruct f; reflexivity.
 Qed.
 
-Lemma i_wlen_lt : forall i, i_wlen i < 65536.
-Proof. intros. unfold i_wlen. apply (bits_lt i 16 16). Qed.
-Lemma i_value_lt : forall i, i_value i < 65536.
-Proof. intros. unfold i_value. apply (bits_lt i 0 16). Qed.
-Lemma i_sp_lt : forall i, i_sp i < 2048.
-Proof. intros. unfold i_sp. apply (bits_lt i 33 11). Qed.
-
 Lemma len_next_lt : forall c i, len_next c i < 2 ^ 16.
 Proof.
   intros c i. unfold len_next. pose proof (i_wlen_lt i).
@@ -76,13 +69,6 @@ Proof. intros c. unfold bk_wf, bk_init. cbn. repeat split; apply pow2_pos. Qed.
 
 (* ---------------------------------------------------------------------------------------------------------- *)
 (* (b) refinement *)
-Lemma held_fields : forall q i, held q i = true ->
-  i_value i = q_value q /\ i_wlen i = q_wlen q /\ i_sp i = q_sp q /\ i_start i = false.
-Proof.
-  intros q i H. unfold held in H. repeat (apply andb_true_iff in H as [H ?]).
-  repeat split; try (apply N.eqb_eq; assumption). destruct (i_start i); [discriminate | reflexivity].
-Qed.
-
 Lemma div4_lt : forall x pw, 2 <= pw -> x < 2 ^ pw -> x / 4 < 2 ^ (pw - 2).
 Proof.
   intros x pw Hp Hx. replace pw with (2 + (pw - 2)) in Hx by lia. rewrite N.pow_add_r in Hx.
@@ -93,24 +79,6 @@ Lemma size_ge_2 : forall x, 2 <= x -> 2 <= N.size x.
 Proof.
   intros x H. destruct (N.le_gt_cases 2 (N.size x)) as [|Hlt]; [assumption|].
   pose proof (N.size_gt x) as Hg. assert (N.size x = 0 \/ N.size x = 1) as [E|E] by lia; rewrite E in Hg; cbn in Hg; lia.
-Qed.
-
-Lemma firstn_skipn_cons : forall (d : list N) n p, (1 <= n)%nat -> (p < length d)%nat ->
-  firstn n (skipn p d) = nth p d 0 :: firstn (n - 1) (skipn (S p) d).
-Proof.
-  induction d as [|x d IH]; intros n p Hn Hp; [cbn in Hp; lia|].
-  destruct p as [|p].
-  - cbn [skipn nth]. destruct n as [|n]; [lia|]. cbn [firstn]. replace (S n - 1)%nat with n by lia. reflexivity.
-  - cbn [skipn nth]. apply IH; [exact Hn | cbn [length] in Hp; lia].
-Qed.
-
-Lemma firstn_skipn_last : forall (d : list N) n p,
-  match firstn n (skipn p d) with [] => true | _ :: _ => false end = (n =? 0)%nat || (length d <=? p)%nat.
-Proof.
-  intros d n p. destruct n as [|n]; [reflexivity|]. cbn [Nat.eqb orb].
-  destruct (Nat.leb_spec (length d) p) as [H|H].
-  - rewrite skipn_all2 by exact H. reflexivity.
-  - rewrite (firstn_skipn_cons d (S n) p) by lia. reflexivity.
 Qed.
 
 Lemma lookup_addr : forall aw h B p, aw <= 14 -> B + p / 4 < 2 ^ aw ->
@@ -138,9 +106,8 @@ Section Refine.
   Local Notation resp := (resp_of c mps).
   Local Notation lat := (bk_lat c).
 
-  Definition lenq (q : dreq) : N := N.min mps (q_wlen q - q_sp q).
-  Definition q_bounded (q : dreq) : Prop := q_value q < 65536 /\ q_wlen q < 65536 /\ q_sp q < 2048.
-  Definition fd (q : dreq) : option desc := find_desc c (v_type (q_value q)) (v_index (q_value q)).
+  Local Notation lenq := (DescCommon.lenq mps).
+  Local Notation fd := (DescCommon.fd c).
 
   (* the descriptor d lies at word address B of the image *)
   Definition data_at (B : N) (d : desc) : Prop :=
@@ -193,20 +160,17 @@ Section Refine.
     i_wlen i = q_wlen q -> i_sp i = q_sp q -> len_next cfg i = lenq q.
   Proof.
     intros q i (_ & Hw & _) Hl Ew Es. unfold req_legal in Hl. apply andb_true_iff in Hl as [Hl _].
-    unfold len_next, lenq. cbn [block_cfg k_mps]. rewrite Ew, Es.
+    unfold len_next, DescCommon.lenq. cbn [block_cfg k_mps]. rewrite Ew, Es.
     destruct (N.ltb_spec (q_wlen q) (q_sp q)); [lia|].
     destruct (N.leb_spec (q_wlen q - q_sp q) mps); [lia|]. rewrite trunc_small by (change (2 ^ 16) with 65536; lia). lia.
   Qed.
-
-  Lemma req_of_bounded : forall i, q_bounded (req_of i).
-  Proof. intros i. unfold q_bounded, req_of. cbn. split; [apply i_value_lt | split; [apply i_wlen_lt | apply i_sp_lt]]. Qed.
 
   Lemma lat_cases : forall q,
     (max_type c < v_type (q_value q) /\ lat q = 1 /\ fd q = None) \/
     (v_type (q_value q) <= max_type c /\ lat q = 2 /\ fd q = None) \/
     (v_type (q_value q) <= max_type c /\ lat q = 4 /\ exists d, fd q = Some d).
   Proof.
-    intros q. unfold bk_lat, fd. destruct (N.ltb_spec (max_type c) (v_type (q_value q))) as [H|H].
+    intros q. unfold bk_lat, DescCommon.fd. destruct (N.ltb_spec (max_type c) (v_type (q_value q))) as [H|H].
     - left. split; [exact H|]. split; [reflexivity|]. unfold find_desc.
       destruct (assoc (v_type (q_value q)) c) as [idxs|] eqn:Ea; [|reflexivity].
       destruct (cf_group c F _ _ Ea) as (_ & _ & _ & _ & _ & Hle). lia.
@@ -230,7 +194,7 @@ Section Refine.
 
   Lemma lenq_pos : forall q, req_legal c q = true -> 1 <= lenq q.
   Proof.
-    intros q Hl. unfold req_legal in Hl. apply andb_true_iff in Hl as [Hl _]. unfold lenq. lia.
+    intros q Hl. unfold req_legal in Hl. apply andb_true_iff in Hl as [Hl _]. unfold DescCommon.lenq. lia.
   Qed.
 
   Lemma pw_facts : forall d : desc, nlen d <= max_desc_len c -> nlen d < 2 ^ pw.
@@ -282,7 +246,7 @@ Section Refine.
           exists d, B, rest, false. cbn [sending b_pos b_sent b_dlen b_base b_rd block_cfg k_pw k_rom k_aw negb andb].
           assert (Ep : trunc pw (pos + 1) = pos + 1) by (apply trunc_small; lia).
           assert (Es1 : trunc 16 (sent + 1) = sent + 1).
-          { apply trunc_small. change (2 ^ 16) with 65536. unfold lenq in Hs1. lia. }
+          { apply trunc_small. change (2 ^ 16) with 65536. unfold DescCommon.lenq in Hs1. lia. }
           rewrite Ep, Es1.
           split; [exact Hfd|]. split; [reflexivity|].
           split; [exact (conj Hd16 (conj HB16 (conj Hdmax Hbytes)))|].
@@ -309,15 +273,15 @@ Section Refine.
   Qed.
 
   Lemma resp_absent : forall q, fd q = None -> resp q = RStall.
-  Proof. intros q H. unfold resp_of, respond. unfold fd in H. rewrite H. reflexivity. Qed.
+  Proof. intros q H. unfold resp_of, respond. unfold DescCommon.fd in H. rewrite H. reflexivity. Qed.
 
   Lemma resp_present : forall q d, fd q = Some d ->
     resp q = RData (firstn (N.to_nat (lenq q)) (skipn (N.to_nat (q_sp q)) d)).
-  Proof. intros q d H. unfold resp_of, respond. unfold fd in H. rewrite H. reflexivity. Qed.
+  Proof. intros q d H. unfold resp_of, respond. unfold DescCommon.fd in H. rewrite H. reflexivity. Qed.
 
   Lemma legal_sp : forall q d, req_legal c q = true -> fd q = Some d -> q_sp q <= nlen d.
   Proof.
-    intros q d Hl Hf. unfold req_legal in Hl. unfold fd in Hf. rewrite Hf in Hl.
+    intros q d Hl Hf. unfold req_legal in Hl. unfold DescCommon.fd in Hf. rewrite Hf in Hl.
     apply andb_true_iff in Hl as [_ Hl]. lia.
   Qed.
 
